@@ -3,7 +3,7 @@
    Model: Model/Patch.v (parser, hunks, Workspace::apply_patch with the first-seen undo list) over
    the file-system model Base/Fs.v.  `apply_patch true` is the code after fix 6739939, `apply_patch
    false` the code before it. *)
-From RipV Require Import Base.Prelude Base.Fs Model.Patch Proofs.FsProofs Proofs.PatchProofs Proofs.PatchAtomic.
+From RipV Require Import Base.Prelude Base.Fs Model.Patch Proofs.FsProofs Proofs.PatchProofs Proofs.PatchAtomic Proofs.PatchText.
 
 (* ---- ATOMICITY (the code after fix 6739939).  For every well-formed workspace tree f (unique
    keys, every entry's ancestors are directories), every patch document (well-formed or not), every
@@ -68,6 +68,61 @@ Print Assumptions c12_changed_exactly_named.
 Theorem c12_changed_sorted_no_repeats : forall (l : list (list N)), strictly_sorted (sort_dedup l).
 Proof. exact sort_dedup_sorted. Qed.
 Print Assumptions c12_changed_sorted_no_repeats.
+
+(* ---- line endings and trailing newline.  A canonical text is a non-empty list of lines free of
+   CR and LF rendered with one separator (LF, or CRLF when the text shows at least one CRLF) and an
+   optional trailing separator.  On every canonical text an update is exactly: edit the line list
+   (cursor-forward hunk application), render it again with the SAME separator and the SAME
+   trailing-newline flag. *)
+Theorem c12_line_endings : forall (ls : list line) (tr : bool) (le : list N) (hs : list hunk),
+  canon ls tr -> style_ok le ls tr ->
+  apply_hunks_to_text (join_lines ls tr le) hs =
+  match apply_hunks_lines ls 0 hs with Some ls' => Some (join_lines ls' tr le) | None => None end.
+Proof. exact hunks_on_canonical. Qed.
+Print Assumptions c12_line_endings.
+
+Theorem c12_split_join_roundtrip : forall (ls : list line) (tr : bool) (le : list N),
+  canon ls tr -> le = LF \/ le = CRLF -> split_lines (join_lines ls tr le) = (ls, tr).
+Proof. exact split_lines_join. Qed.
+Print Assumptions c12_split_join_roundtrip.
+
+(* for ANY text (canonical or not): a trailing newline is kept whenever anything is left, and a
+   file without CR stays without CR when the patch adds none *)
+Theorem c12_trailing_newline_kept : forall (text : bytes) (hs : list hunk) (out : bytes),
+  apply_hunks_to_text text hs = Some out -> ends_nl text = true -> out <> [] -> ends_nl out = true.
+Proof. exact trailing_newline_kept. Qed.
+Print Assumptions c12_trailing_newline_kept.
+
+Theorem c12_lf_file_stays_lf : forall (text : bytes) (hs : list hunk) (out : bytes),
+  ~ In 13 text -> (forall h, In h hs -> Forall (fun l => ~ In 13 l) (h_after h)) ->
+  apply_hunks_to_text text hs = Some out -> ~ In 13 out.
+Proof. exact lf_file_stays_lf. Qed.
+Print Assumptions c12_lf_file_stays_lf.
+
+Example c12_canonical_nonvacuous :
+  canon [[97]; [98]] true /\ style_ok CRLF [[97]; [98]] true /\
+  apply_hunks_to_text (join_lines [[97]; [98]] true CRLF) [{| h_before := [[98]]; h_after := [[99]; [100]] |}]
+  = Some (join_lines [[97]; [99]; [100]] true CRLF).
+Proof. exact canonical_demo. Qed.
+
+(* what the code does outside the canonical texts (the statement's "preserve" fails there):
+   a mixed LF/CRLF file is normalised to CRLF even by an identity hunk; a lone CR ending the last
+   line of a file without final newline is dropped; when the file has no final newline and the last
+   remaining line is empty, the result ends in a newline *)
+Theorem c12_identity_hunk_rewrites_mixed_file_refuted :
+  exists text h out, h_before h = h_after h /\ apply_hunks_to_text text [h] = Some out /\ out <> text.
+Proof. exact identity_hunk_not_identity_refuted. Qed.
+Print Assumptions c12_identity_hunk_rewrites_mixed_file_refuted.
+
+Theorem c12_lone_cr_dropped_refuted :
+  exists text h out, h_before h = h_after h /\ apply_hunks_to_text text [h] = Some out /\ In 13 text /\ ~ In 13 out.
+Proof. exact lone_cr_dropped_refuted. Qed.
+Print Assumptions c12_lone_cr_dropped_refuted.
+
+Theorem c12_no_final_newline_not_always_kept_refuted :
+  exists text hs out, apply_hunks_to_text text hs = Some out /\ ends_nl text = false /\ ends_nl out = true.
+Proof. exact no_trailing_newline_not_always_kept_refuted. Qed.
+Print Assumptions c12_no_final_newline_not_always_kept_refuted.
 
 (* ---- malformed documents: the parser is a total function; a rejected document touches nothing *)
 Theorem c12_malformed_untouched : forall (fixed : bool) (root : path) (f : fs) (input : list N),
